@@ -441,6 +441,22 @@ func (h *Hashgraph) checkOtherParent(event *Event) error {
 	return nil
 }
 
+//Check that the Event's index directly follows its self-parent's
+func (h *Hashgraph) checkIndex(event *Event) error {
+	expected := 0
+	if selfParent := event.SelfParent(); selfParent != "" {
+		sp, err := h.Store.GetEvent(selfParent)
+		if err != nil {
+			return fmt.Errorf("Self-parent not found: %v", err)
+		}
+		expected = sp.Index() + 1
+	}
+	if event.Index() != expected {
+		return fmt.Errorf("Invalid Index: got %d, expected %d", event.Index(), expected)
+	}
+	return nil
+}
+
 //initialize arrays of last ancestors and first descendants
 func (h *Hashgraph) initEventCoordinates(event *Event) error {
 	event.lastAncestors = NewCoordinatesMap()
@@ -718,6 +734,22 @@ func (h *Hashgraph) InsertEvent(event *Event, setWireInfo bool) error {
 			"creator":      event.Creator(),
 			"other_parent": event.OtherParent(),
 		}).WithError(err).Errorf("CheckOtherParent")
+		return err
+	}
+
+	// The Event must extend its creator's chain by exactly one: its index is
+	// the self-parent's index plus one, or zero for a first Event. Without this
+	// check an Event with the same index as its self-parent would overwrite the
+	// creator's slot in the participant index (two Events at one height), a
+	// first Event could claim any index, and an Event with a skipped index
+	// would only be refused by the Store after a topological index had been
+	// consumed, leaving a hole in the database's topological listing.
+	if err := h.checkIndex(event); err != nil {
+		h.logger.WithFields(logrus.Fields{
+			"event":   event.Hex(),
+			"creator": event.Creator(),
+			"index":   event.Index(),
+		}).WithError(err).Errorf("CheckIndex")
 		return err
 	}
 
